@@ -1,15 +1,15 @@
 #!/bin/bash
 # usage: confirm_mutant.sh <worktree> <deliver-subdir> <seeded-id>
 # confirms: with the change the suite passes and the demo fails; without it the demo passes. Archives under /verif/seeded/<id>/.
-wt=$1; d=$2; id=$3
+wt=$1; d=$2; id=$3; feat=${4:-}
 cd "$wt" || exit 2
 git checkout -q -- . ; rm -f tests/zz_demo_*.rs
 name=zz_demo_$(echo $id | tr 'A-Z-' 'a-z_')
 cp "$d/demo.rs" tests/$name.rs
 export CARGO_NET_OFFLINE=true
-without=$(cargo test --offline --test $name 2>&1 | grep -E "^test result" | head -1)
+without=$(cargo test --offline $feat --test $name 2>&1 | grep -E "^test result" | tail -1)
 git apply "$d/patch.diff" || { echo "$id: PATCH FAILS"; exit 3; }
-with=$(cargo test --offline --test $name 2>&1 | grep -E "^test result" | head -1)
+with=$(cargo test --offline $feat --test $name 2>&1 | grep -E "^test result" | tail -1)
 rm -f tests/$name.rs
 suite=$(cargo test --workspace --no-fail-fast --offline 2>&1 | grep "test result" | awk '{p+=$4; f+=$6} END {print "passed",p,"failed",f}')
 git checkout -q -- .
